@@ -8,6 +8,7 @@ from pyvc.unit import unit
 
 APKF = "androguard/core/apk/__init__.py"
 META = {
+    "technique": 'contract-based deductive verification: symbolic execution of the real functions against sidecar contracts (z3/cvc5) for the proved units; bounded contract evaluation (enumerated scope / independent writer) for the rest',
     "level": "other",
     "partial": True,
     "level_text": "Proof: the regular expressions used by get_dex_names / is_multidex are taken from the current source (AST) and "
